@@ -10,10 +10,11 @@ from . import setop_prop as S
 
 ASSUMES = S.ASSUMES
 LEVEL_TEXT = __doc__
-RULES = {"push": "R06.1", "emit": "R06.3", "ctor": "R06.5"}
+RULES = {"push": "R06.1", "emit": "R06.3", "ctor": "R06.5", "partition": "R06.2"}
 
 
 def declare(rep):
+    rep.rule("R06.2", "independent of the tables: no node still to be visited is dropped (left always, right for union), none is pushed twice")
     rep.rule("R06.1", "entries pushed by every arm (prune + one-sided descent) as specified")
     rep.rule("R06.3", "emission only in Both, iff both nodes hold a value, with both values")
     rep.rule("R06.5", "initial stack of intersection / intersection_mut for any two view positions")
